@@ -13,9 +13,9 @@ PROPS = {
             "note": "temporaries hygienic: fresh index, declared, assigned before use"},
     "C07": {"units": ["U6a", "U4", "U6b", "U6c", "U7"], "min_obligations": 6,
             "note": "directive prologues survive: insertion index == directive-prologue length; injected let / file prologue spliced right after it"},
-    "C09": {"units": ["U3", "U4", "U5", "U6a", "U9", "U7"], "min_obligations": 5,
+    "C09": {"units": ["U3", "U4", "U5", "U6a", "U9", "U7", "U10"], "min_obligations": 5,
             "note": "span discipline of injected / copied nodes"},
-    "C12": {"units": ["U1", "U6a", "U4", "U5", "U6b", "U6c", "U9", "U7"], "min_obligations": 5,
+    "C12": {"units": ["U1", "U6a", "U4", "U5", "U6b", "U6c", "U9", "U7", "U10"], "min_obligations": 5,
             "note": "status never disagrees with content"},
     "C10": {"units": ["U10", "U9"], "min_obligations": 8,
             "note": "chain_source_maps under contract over abstract views of the sourcemap crate (assumed library specs): the returned text serialises exactly the token-by-token composition, None (plain rewrite map) when chaining is off / no original map / unparsable rewrite map; lemma_exact_composition: generated positions resolve as the two-step lookup when every rewrite token has a hit. Trailer and comment handling (print_js, extract_source_map, remove_comment_text) is NOT proved: pinned by sha256 + replayed witnesses"},
